@@ -153,18 +153,93 @@ def getDocstring (bases : Nat → List Nat) (ext : Nat → Bool) (owns hasDoc : 
     (c name : Nat) : Option Nat :=
   (docsources bases ext owns c name).find? (fun b => hasDoc b name)
 
+/-! ### consumers of the linearisation -/
+
+/-- `Class.mro()` while `_mro` is still `None` (inside the AST visitors):
+`list(self.allbases(include_self))`. -/
+def classMroEarly (bases : Nat → List Nat) (ext : Nat → Bool) (c : Nat) (includeSelf : Bool := true) :
+    List Nat :=
+  if includeSelf then allbases bases ext c
+  else ((bases c).filter (fun b => !ext b)).flatMap (allbasesFuel bases ext c)
+
+/-- `is_exception(cls)`: `for base in cls.mro(True, False): if base in _STD_LIB_EXCEPTIONS: return True`.
+`std b` = `b` is an unresolved base whose name is in the table (a `Class` object is never `in` a
+tuple of strings). -/
+def isException (bases : Nat → List Nat) (ext std : Nat → Bool) (c : Nat) : Bool :=
+  (classMro bases ext c true false).any fun b => ext b && std b
+
+/-- `_find_dunder_constructor(cls)`: `__new__` if `find` gives a `Function`; only when there is no
+`__new__` at all, `__init__` if it is a `Function`.  Result: (owner, name). -/
+def findDunderConstructor (bases : Nat → List Nat) (ext : Nat → Bool) (owns isFunc : Nat → Nat → Bool)
+    (c newN initN : Nat) : Option (Nat × Nat) :=
+  match find bases ext owns c newN with
+  | some o => if isFunc o newN then some (o, newN) else none
+  | none =>
+    match find bases ext owns c initN with
+    | some o => if isFunc o initN then some (o, initN) else none
+    | none => none
+
+/-- first loop of `pages.get_override_info(cls, member_name)`: the member it "overrides" —
+`for b in cls.mro(include_self=False): if member_name not in b.contents: continue; …; break`. -/
+def overrides (bases : Nat → List Nat) (ext : Nat → Bool) (owns : Nat → Nat → Bool) (c name : Nat) :
+    Option Nat :=
+  (classMro bases ext c false false).find? fun b => owns b name
+
+/-- `Class.subclasses` as `defaultPostProcess` fills it: the classes are visited in `order`,
+`for b in cls.baseobjects: if b is not None: b.subclasses.append(cls)` (once per occurrence). -/
+def subclassesOf (bases : Nat → List Nat) (order : List Nat) (c : Nat) : List Nat :=
+  order.flatMap fun d => ((bases d).filter (· == c)).map fun _ => d
+
+/-- `util.overriding_subclasses(classobj, name, firstcall)` -/
+def overridingFuel (bases : Nat → List Nat) (order : List Nat) (owns : Nat → Nat → Bool)
+    (visible : Nat → Bool) (name : Nat) : Nat → Nat → Bool → List Nat
+  | 0, _, _ => []
+  | f+1, c, firstcall =>
+    if !firstcall && owns c name then [c]
+    else ((subclassesOf bases order c).filter visible).flatMap fun s =>
+      overridingFuel bases order owns visible name f s false
+
+def overridingSubclasses (bases : Nat → List Nat) (order : List Nat) (owns : Nat → Nat → Bool)
+    (visible : Nat → Bool) (c name : Nat) : List Nat :=
+  overridingFuel bases order owns visible name (order.length + 1) c true
+
+/-- `util.nested_bases(cls)`: for every prefix of `mro()` the chain `tuple(reversed(_mro[:i+1]))`,
+given as (`baselist[0]`, `baselist[1:]`); `acc` is the reversed prefix walked so far. -/
+def chains : List Nat → List Nat → List (Nat × List Nat)
+  | _, [] => []
+  | acc, x :: xs => (x, acc) :: chains (x :: acc) xs
+
+def nestedBases (m : List Nat) : List (Nat × List Nat) := chains [] m
+
+/-- `util.unmasked_attrs(baselist)`: members of `baselist[0]` that are visible and whose name is
+not among the contents of `baselist[1:]`; `contents b` = names in definition order. -/
+def unmaskedAttrs (contents : Nat → List Nat) (visible : Nat → Nat → Bool) (b : Nat) (rest : List Nat) :
+    List (Nat × Nat) :=
+  ((contents b).filter fun n => visible b n && !(rest.any fun r => (contents r).contains n)).map fun n => (b, n)
+
+/-- `util.class_members(cls)` over `m = cls.mro()` -/
+def classMembers (contents : Nat → List Nat) (visible : Nat → Nat → Bool) (m : List Nat) :
+    List ((Nat × List Nat) × List (Nat × Nat)) :=
+  ((nestedBases m).map fun p => (p, unmaskedAttrs contents visible p.1 p.2)).filter fun q => !q.2.isEmpty
+
+/-- `util.inherited_members(cls)`: `len(inherited_via) > 1` -/
+def inheritedMembers (contents : Nat → List Nat) (visible : Nat → Nat → Bool) (m : List Nat) :
+    List (Nat × Nat) :=
+  ((classMembers contents visible m).filter fun q => q.1.2.length + 1 > 1).flatMap (·.2)
+
 /-! ### `compute_mro.init_finalbaseobjects`: the second pass of base resolution
 
 What the AST pass left behind for class `o`: `raw o` the base names as written, `initial o` =
 `_initialbaseobjects` (`none` where the name could not be resolved yet, e.g. inside an import
-cycle), `expanded o` what the expanded names `_initialbases` denote now, `scope o` = `o.parent`; `resolve sc name` = `sc.resolveName(name)` when that is a `Class`.
+cycle), `expanded o` what `system.find_object` makes of the expanded names `_initialbases` now, `scope o` = `o.parent`; `resolve sc name` = `sc.resolveName(name)` when that is a `Class`.
 `who cls o` is the scope in which a still unresolved base name of `o` is looked up while the MRO of
 `cls` is being computed: the code uses `o.parent` (`who = fun _ o => scope o`). -/
 structure Decls where
   scope : Nat → Nat
   raw : Nat → List Nat
   initial : Nat → List (Option Nat)
-  /-- `system.objForFullName(o._initialbases[i])` when that is a `Class` -/
+  /-- `system.find_object(o._initialbases[i])` (`LookupError` → `None`) when that is a `Class`:
+  the expanded name followed through the aliases re-export moves left behind -/
   expanded : Nat → List (Option Nat)
   resolve : Nat → Nat → Option Nat
 
@@ -293,6 +368,23 @@ def docSource (bases : Nat → List Nat) (owns hasDoc : Nat → Nat → Bool) (c
     match mro bases c with
     | none => none
     | some l => (l.drop 1).find? (fun b => owns b name && hasDoc b name)
+
+/-- which user-defined `__new__`/`__init__` runs when the class is called: the first class of the
+MRO (builtins excluded through `owns`) that defines `__new__`, else the same for `__init__`. -/
+def constructorLookup (bases : Nat → List Nat) (owns isFunc : Nat → Nat → Bool) (c newN initN : Nat) :
+    Option (Nat × Nat) :=
+  match lookup bases owns c newN with
+  | some o => if isFunc o newN then some (o, newN) else none
+  | none =>
+    match lookup bases owns c initN with
+    | some o => if isFunc o initN then some (o, initN) else none
+    | none => none
+
+/-- what `super().name` finds in a method of class `c`: lookup along `__mro__` after `c` -/
+def superLookup (bases : Nat → List Nat) (owns : Nat → Nat → Bool) (c name : Nat) : Option Nat :=
+  match mro bases c with
+  | none => none
+  | some l => (l.drop 1).find? fun b => owns b name
 
 /-- What `inspect.getdoc` does for a function without docstring (`inspect._finddoc`):
 `for base in cls.__mro__: doc = getattr(base, name).__doc__; if doc is not None: return doc` —
